@@ -13,6 +13,7 @@ from __future__ import annotations
 
 from . import common as C
 from . import replay
+from . import specvssuite
 
 
 def run(tier: str) -> int:
@@ -20,6 +21,7 @@ def run(tier: str) -> int:
     rep.distinct = None
     thorough = tier == "thorough"
     modes = ("interp", "gen")
+    specvssuite.run(rep, max_len=6000 if thorough else 700)  # the oracle itself must accept what the repository's suite blesses
     if not thorough:
         fams = [{"Family": "stack", "MaxLen": 4, "Starts": "zero", "Sample": 1500, "workers": 4}]
     else:
